@@ -72,7 +72,21 @@ class NativeCodeGenerator(CodeGenerator):
         if isinstance(node, nodes.TemplateData):
             return const
 
-        return finalize.const(const)  # type: ignore
+        const = finalize.const(const)  # type: ignore
+
+        # A constant is written into the template as text and parsed back
+        # by native_concat. Only fold it when that gives the same value,
+        # otherwise leave the expression to be evaluated at render time.
+        if not isinstance(const, str):
+            try:
+                parsed = literal_eval(parse(str(const), mode="eval"))
+            except Exception:
+                raise nodes.Impossible() from None
+
+            if type(parsed) is not type(const) or parsed != const:
+                raise nodes.Impossible()
+
+        return const
 
     def _output_child_pre(
         self, node: nodes.Expr, frame: Frame, finalize: CodeGenerator._FinalizeInfo
